@@ -80,6 +80,18 @@ struct src_rgb8p : src_base {
     unsigned char mask_of(int sx, int sy, int k, unsigned long i) const { return (long)i == sy * rowbytes + sx ? 0xFF : 0; }
     unsigned char chan_mask_of(int sx, int sy, int c, int k, unsigned long i) const { return (k == c && (long)i == sy * rowbytes + sx) ? 0xFF : 0; }
 };
+// planar rgb16: three planes of 16-bit channels
+struct src_rgb16p : src_base {
+    using view_t = gil::rgb16_planar_view_t;
+    static constexpr bool addressable = true;
+    vbuf r, g, bl; long rowbytes = 0;
+    view_t make() { dims(); int pad = padv(2); rowbytes = (long)w * 2 + pad * 2; unsigned long n = (unsigned long)(h * rowbytes);
+        r.get(n); g.get(n); bl.get(n); return gil::planar_rgb_view(w, h, (std::uint16_t*)r.p, (std::uint16_t*)g.p, (std::uint16_t*)bl.p, rowbytes); }
+    static constexpr int nplanes = 3;
+    unsigned char* plane(int k) { return k == 0 ? r.p : k == 1 ? g.p : bl.p; } unsigned long plane_size() const { return r.n; }
+    unsigned char mask_of(int sx, int sy, int k, unsigned long i) const { long o = sy * rowbytes + (long)sx * 2; return ((long)i >= o && (long)i < o + 2) ? 0xFF : 0; }
+    unsigned char chan_mask_of(int sx, int sy, int c, int k, unsigned long i) const { return k == c ? mask_of(sx, sy, k, i) : 0; }
+};
 // x-step view over gray8 (every xs-th byte)
 struct src_gray8step : src_base {
     using view_t = gil::gray8_step_view_t;
@@ -130,6 +142,15 @@ struct src_deref : src_base {
     view_t make() { dims(); long rb = (long)w * 3; b.get((unsigned long)(h * rb));
         base = gil::interleaved_view(w, h, (gil::rgb8_pixel_t const*)b.p, rb); return gil::color_converted_view<gil::gray8_pixel_t>(base); }
     // give the source pixel (sx,sy) logged symbolic contents (the rest of the buffer is unconstrained heap)
+    void prepare(int sx, int sy) { vp_fill(b.p + (sy * (long)w + sx) * 3, 3); }
+};
+struct src_deref3 : src_base {
+    using base_t = gil::rgb8c_view_t;
+    using view_t = gil::color_converted_view_type<base_t, gil::bgr8_pixel_t>::type;
+    static constexpr bool addressable = false;
+    vbuf b; base_t base;
+    view_t make() { dims(); long rb = (long)w * 3; b.get((unsigned long)(h * rb));
+        base = gil::interleaved_view(w, h, (gil::rgb8_pixel_t const*)b.p, rb); return gil::color_converted_view<gil::bgr8_pixel_t>(base); }
     void prepare(int sx, int sy) { vp_fill(b.p + (sy * (long)w + sx) * 3, 3); }
 };
 // virtual locator: the pixel value encodes its coordinates
